@@ -23,7 +23,10 @@ DataSets == <<
    alternatives |-> KnownAlts(3, 2, <<<<(0 - 2) * UNIT, 0>>, <<2 * UNIT, (0 - 4) * UNIT>>, <<6 * UNIT, 4 * UNIT>>>>), considered |-> 2],
   (* 3: degenerate observed range (min = max) and a declared cost range *)
   [criteria |-> <<Crit(1, "gain"), CritR(2, "cost", (0 - 8) * UNIT, 8 * UNIT)>>,
-   alternatives |-> KnownAlts(2, 2, <<<<5 * UNIT, 1 * UNIT>>, <<5 * UNIT, 3 * UNIT>>>>), considered |-> 2]
+   alternatives |-> KnownAlts(2, 2, <<<<5 * UNIT, 1 * UNIT>>, <<5 * UNIT, 3 * UNIT>>>>), considered |-> 2],
+  (* 4: every value negative, observed ranges *)
+  [criteria |-> <<Crit(1, "gain"), Crit(2, "cost")>>,
+   alternatives |-> KnownAlts(3, 2, <<<<(0 - 6) * UNIT, (0 - 1) * UNIT>>, <<(0 - 2) * UNIT, (0 - 5) * UNIT>>, <<(0 - 4) * UNIT, (0 - 3) * UNIT>>>>), considered |-> 3]
 >>
 
 Instances == [dir : Dirs, mode : IncModes \cup DecModes, cn : Coefs, lo : Bounds, hi : Bounds, ds : DOMAIN DataSets]
